@@ -115,10 +115,12 @@ def record_lattice(spec):
         D = [int(v) for v in r.D[q]]
         s = sw[c2]
         mi = float(r.XY[q].imag) / s if s else 0.0
-        return {"kind": kind, "L": int(r.L[q]), "D": D, "c2": c2, "K": int(r.K[q]), "navg": int(r.navg[q]),
+        m2 = float(r.M2[q])
+        m2scale = 65536 if m2 < 3e4 else (256 if m2 < 8e6 else 1)
+        return {"kind": kind, "L": int(r.L[q]), "D": D, "c2": c2, "K": int(r.K[q]), "navg": int(r.navg[q]), "m2scale": m2scale,
                 "S12": int(round(float(r.S12[q]))), "S2": int(round(float(r.S2[q]))),
                 "q": [traces.q(float(r.XX[q]), 65536), traces.q(float(r.YY[q]), 65536), traces.q(float(r.XY[q].real), 65536),
-                      traces.q(mi, 65536), traces.q(min(float(r.M2[q]), 3e4), 65536)]}
+                      traces.q(mi, 65536), traces.q(min(m2, 2e9), m2scale)]}
     freqs = {2: 0.0, 1: 1 / 6, 0: 0.25, -1: 1 / 3, -2: 0.5}
     for (c2, L) in spec["singles"]:
         if L > N:
